@@ -21,6 +21,7 @@ type sinkState struct {
 	ordered  bool // single producer: the sequence must be preserved
 	exactDXF bool // C15: DXF coordinates must parse back to exactly the input
 	circles  int  // drawing-object episodes: point markers added with DXF.Points
+	pipe     bool // the output went down a named pipe; path holds what the reader received
 
 	notices  []Check          // secondary findings that do not stop the other checks
 	outTris  []*sdf.Triangle3 // what ToTriangles returned
@@ -83,7 +84,9 @@ func (s *sinkState) checkSTL() Check {
 		return bad("sink-missing", "stl: %v", err)
 	}
 	n := len(s.tris)
-	if int(f.Count) != n {
+	// (on a pipe the header cannot be rewritten: the count field is whatever the
+	// placeholder header held; every record must still be there)
+	if int(f.Count) != n && !s.pipe {
 		return bad("stl-count", "stl count field is %d, %d triangles were written (file %d bytes, %d records)", f.Count, n, f.Size, len(f.Recs))
 	}
 	if f.Size != 84+50*n {
